@@ -492,18 +492,40 @@ class CallMixin:
         it = self.ev(gen.iter, st, spec)
         e, arr, off, ln = self.seq_of(it, st, spec)
         i = self.ctx.fresh("i", z3.IntSort())
+        # a list that was just extended / updated is store(base, k, v): the body is evaluated separately for the written
+        # positions (ground instances) and for base[i], instead of once on ite(i == k, v, base[i]) (no usable trigger)
+        alts, base_arr = [], arr
+        if z3.is_int_value(off) and off.as_long() == 0:
+            while z3.is_app(base_arr) and base_arr.decl().kind() == z3.Z3_OP_STORE and len(alts) < 3:
+                alts.append((base_arr.arg(1), base_arr.arg(2)))
+                base_arr = base_arr.arg(0)
         saved = st.bound
-        st.bound = dict(saved)
-        self.bind_target(gen.target, SV(e, arr[_ix(i, off)]), st, bound=True)
-        st.qdepth += 1
-        st.qids.add(i.get_id())
-        try:
-            conds = [self.truthy(self.ev(c, st, spec), st) for c in gen.ifs]
-            body = self.truthy(self.ev(node.elt, st, spec), st)
-        finally:
-            st.bound = saved
-            st.qdepth -= 1
-            st.qids.discard(i.get_id())
+
+        def body_for(elem_t, guard):
+            st.bound = dict(saved)
+            self.bind_target(gen.target, SV(e, elem_t), st, bound=True)
+            st.qdepth += 1
+            st.qids.add(i.get_id())
+            st.qguards.append(guard)
+            try:
+                cs = [self.truthy(self.ev(c, st, spec), st) for c in gen.ifs]
+                b = self.truthy(self.ev(node.elt, st, spec), st)
+            finally:
+                st.bound = saved
+                st.qdepth -= 1
+                st.qids.discard(i.get_id())
+                st.qguards.pop()
+            return z3.And(*cs) if cs else z3.BoolVal(True), b
+        in_rng = z3.And(0 <= i, i < ln)
+        if alts:
+            cnd, body = body_for(base_arr[i], z3.And(in_rng, *[i != k for k, _ in alts]))
+            for k, v in reversed(alts):
+                c2, b2 = body_for(v, z3.And(in_rng, i == k))
+                cnd, body = z3.If(i == k, c2, cnd), z3.If(i == k, b2, body)
+            conds = [cnd]
+        else:
+            cnd, body = body_for(arr[_ix(i, off)], in_rng)
+            conds = [cnd]
         rng = z3.And(0 <= i, i < ln, *conds)
         if is_all:
             return mk_bool(z3.ForAll([i], z3.Implies(rng, body)))
@@ -524,12 +546,14 @@ class CallMixin:
         outer_q = st.qdepth
         st.qdepth += 1
         st.qids.add(j.get_id())
+        st.qguards.append(z3.And(0 <= j, j < ln))
         try:
             r = self.apply(m.fn, elems, {}, st, spec)
         finally:
             st.bound = saved
             st.qdepth -= 1
             st.qids.discard(j.get_id())
+            st.qguards.pop()
         if outer_q > 0:
             raise Unsupported("list(map(...)) inside a quantified specification")
         arr = self.defined_array("map", z3.ArraySort(z3.IntSort(), sort_of(r.ty)), lambda t: z3.substitute(r.t, (j, t)), st)
@@ -550,6 +574,7 @@ class CallMixin:
         st.bound = dict(saved)
         st.qdepth += 1
         st.qids.add(j.get_id())
+        st.qguards.append(z3.And(0 <= j, j < ln))
         try:
             self.bind_target(gen.target, elem, st, bound=True)
             r = self.ev(node.elt, st, spec)
@@ -557,6 +582,7 @@ class CallMixin:
             st.bound = saved
             st.qdepth -= 1
             st.qids.discard(j.get_id())
+            st.qguards.pop()
         if not is_sv(r) or r.ty.kind not in ("int", "real", "bool", "ref", "list"):
             raise Unsupported("comprehension element %r" % (r,))
         if st.qdepth > 0:
@@ -1161,10 +1187,12 @@ class CallMixin:
         tmp.call_pre = st.call_pre
         tmp.qdepth = st.qdepth
         tmp.qids = st.qids
+        tmp.qguards = st.qguards
         return self.ev(node, tmp, True)
 
     def spec_old(self, node, st):
-        return self._in_snapshot(node.args[0], st, st.call_pre if st.call_pre is not None else st.entry)
+        # names that did not exist at entry (ghost results, `result`) keep their current value inside old(...)
+        return self._in_snapshot(node.args[0], st, st.call_pre if st.call_pre is not None else st.entry, keep_new=True)
 
     def spec_before(self, node, st):
         """value of an expression just before the innermost enclosing loop started (or loop n: before(e, n))"""
